@@ -180,6 +180,10 @@ def interp(items):
             last = r0[1] == "->>"
             cur = ("member", cur, rest[1][1], last)
             rest = rest[2:]
+            # `::` binds tighter than -> / ->> : written after the field name it casts that literal, not the value read
+            # (the translator itself parenthesises such an operand: cast_operand_needs_parens)
+            if rest and rest[0] == ("op", "::"):
+                raise SqlError("a cast follows a field name without parentheses: it applies to the name, not to the value read")
         elif r0[0] == "G":
             cur = ("call", cur, [interp(x) for x in split_commas(r0[1])])
             rest = rest[1:]
